@@ -97,7 +97,10 @@ func (rg *rootGeneratorSimple) generateIter() func(yield func(*Node, error) bool
 			stack.dfs(currentNode)
 		}
 
-		yield(root, rg.scanner.Err()) // 最後のブロックのrootを返却
+		// 最後のブロックのrootを返却 (rootが一つも無い入力では何も返さない)
+		if err := rg.scanner.Err(); err != nil || root != nil {
+			yield(root, err)
+		}
 	}
 }
 
